@@ -49,3 +49,50 @@ V("RL-benign-close-helper", "C20", None,
 V("RL-benign-rename-local", "C20", None,
   ("reader.py", "            source_path = str(tdms_file)\n            if source_path.endswith(\".tdms_index\"):\n                self._index_file_path = source_path\n",
    "            src_path = str(tdms_file)\n            source_path = src_path\n            if source_path.endswith(\".tdms_index\"):\n                self._index_file_path = source_path\n"))
+
+# ---------------------------------------------------------------- C15 (BL3/BL4)
+V("BL3-drop-arg-string-read", "C15", "BL3",
+  ("tdms_segment.py", "            object_path = types.String.read(file, endianness)\n", "            object_path = types.String.read(file)\n"))
+V("BL3-drop-arg-read-property", "C15", "BL3",
+  ("tdms_segment.py", "            return [read_property(file, endianness) for _ in range(num_properties)]\n",
+   "            return [read_property(file) for _ in range(num_properties)]\n"))
+V("BL3-drop-arg-uint64", "C15", "BL3",
+  ("tdms_segment.py", "            self.data_size = types.Uint64.read(f, endianness)\n", "            self.data_size = types.Uint64.read(f)\n"))
+V("BL3-drop-arg-daqmx-widths", "C15", "BL3",
+  ("daqmx.py", "            self.raw_data_widths[width_idx] = types.Uint32.read(f, endianness)\n", "            self.raw_data_widths[width_idx] = types.Uint32.read(f)\n"))
+V("BL3-const-prefix-props", "C15", "BL3",
+  ("tdms_segment.py", "        num_properties = _struct_unpack(endianness + 'L', num_properties_bytes)[0]\n",
+   "        num_properties = _struct_unpack('<' + 'L', num_properties_bytes)[0]\n"))
+V("BL3-const-format-daqmx-scaler", "C15", "BL3",
+  ("daqmx.py", "_struct_unpack(endianness + 'LLLLL', scaler_bytes)", "_struct_unpack('<LLLLL', scaler_bytes)"))
+V("BL3-flip-polarity", "C15", "BL3",
+  ("tdms_segment.py", "    def _get_data_reader(self):\n        endianness = '>' if (self.toc_mask & toc_properties['kTocBigEndian']) else '<'\n",
+   "    def _get_data_reader(self):\n        endianness = '<' if (self.toc_mask & toc_properties['kTocBigEndian']) else '>'\n"))
+V("BL3-wrong-flag", "C15", "BL3",
+  ("tdms_segment.py", "        endianness = '>' if (self.toc_mask & toc_properties['kTocBigEndian']) else '<'\n\n        new_obj_list",
+   "        endianness = '>' if (self.toc_mask & toc_properties['kTocInterleavedData']) else '<'\n\n        new_obj_list"))
+V("BL3-nptype-no-newbyteorder", "C15", "BL3",
+  ("tdms_segment.py", "            dtype = self.data_type.nptype.newbyteorder(endianness)\n", "            dtype = self.data_type.nptype\n"))
+V("BL3-from-bytes-ignores-order", "C15", "BL3",
+  ("types.py", "class StructType(TdmsType):", "class StructType(TdmsType):\n    pass\n\n\nclass _Unused(TdmsType):"),
+  ("types.py", "        array = byte_array.view()\n        array.dtype = cls.nptype.newbyteorder(endianness)\n        # Convert to native byte order, this doesn't copy if data is already in native order\n        return array.astype(cls.nptype, copy=False)\n\n\n@tds_data_type(0, None)",
+   "        array = byte_array.view()\n        array.dtype = cls.nptype\n        return array\n\n\n@tds_data_type(0, None)"),
+  known_miss=False)
+V("BL3-interleaved-drops-endianness", "C15", "BL3",
+  ("tdms_segment.py", "            object_data = obj.data_type.from_bytes(object_data, self.endianness)\n",
+   "            object_data = obj.data_type.from_bytes(object_data)\n"))
+V("BL4-swap-big-endian-format", "C15", "BL4",
+  ("types.py", "                 endianness + 'qQ', data)", "                 endianness + 'Qq', data)"))
+V("BL4-big-endian-dtype-order", "C15", "BL4",
+  ("types.py", "            dtype = np.dtype([('seconds', '>i8'), ('second_fractions', '>u8')])", "            dtype = np.dtype([('second_fractions', '>u8'), ('seconds', '>i8')])"))
+V("BL4-little-literal-in-big-branch", "C15", "BL4",
+  ("types.py", "            dtype = np.dtype([('seconds', '>i8'), ('second_fractions', '>u8')])", "            dtype = np.dtype([('seconds', '<i8'), ('second_fractions', '<u8')])"))
+V("BL4-field-indices-swapped", "C15", "BL4",
+  ("timestamp.py", "        if field_names == ('second_fractions', 'seconds'):\n            obj._field_indices = (1, 0)", "        if field_names == ('second_fractions', 'seconds'):\n            obj._field_indices = (0, 1)"))
+V("BL3-benign-rename-param", "C15", None,
+  ("tdms_segment.py", "def read_property(f, endianness=\"<\"):\n    \"\"\" Read a property from a segment's metadata \"\"\"\n\n    prop_name = types.String.read(f, endianness)\n    prop_data_type = types.tds_data_types[types.Uint32.read(f, endianness)]\n    value = prop_data_type.read(f, endianness)",
+   "def read_property(f, byte_order=\"<\"):\n    \"\"\" Read a property from a segment's metadata \"\"\"\n\n    prop_name = types.String.read(f, byte_order)\n    prop_data_type = types.tds_data_types[types.Uint32.read(f, byte_order)]\n    value = prop_data_type.read(f, byte_order)"))
+V("BL3-benign-local-alias", "C15", None,
+  ("tdms_segment.py", "        num_objects = _struct_unpack(endianness + 'L', num_objects_bytes)[0]\n", "        order = endianness\n        num_objects = _struct_unpack(order + 'L', num_objects_bytes)[0]\n"))
+V("BL3-benign-keyword-arg", "C15", None,
+  ("tdms_segment.py", "            object_path = types.String.read(file, endianness)\n", "            object_path = types.String.read(file, endianness=endianness)\n"))
